@@ -636,6 +636,16 @@ func GarbageCases(reg *Registry, rng *rand.Rand, thorough bool) []Case {
 		deep("object-args", call(Deep('o', depth, Str("x"))), "tools/call")
 		deep("big-arg", call(Obj(F("s", BigStr('a', size)))), "tools/call")
 	}
+	// above the usual caps (64 KiB scanner tokens, 1 MiB line buffers), in every tier: valid requests that must be answered
+	// normally and garbage of the same size
+	for _, n := range []int{2 << 20, 5<<20 + 4321} {
+		deep(fmt.Sprintf("huge-ping-%d", n), env(Str(fmt.Sprintf("huge-%d", n)), "ping", vp(Obj(F("pad", BigStr('a', n))))), "ping")
+		if reg.tool("boom") != nil {
+			deep(fmt.Sprintf("huge-arg-%d", n), env(Int(int64(n)), "tools/call", vp(Obj(F("name", Str("boom")), F("arguments", Obj(F("s", BigStr('b', n))))))), "tools/call")
+		}
+		raw(fmt.Sprintf("huge-not-json-%d", n), strings.Repeat("x", n), "unparsable", "huge")
+		raw(fmt.Sprintf("huge-truncated-%d", n), `{"jsonrpc":"2.0","id":1,"method":"ping","params":{"pad":"`+strings.Repeat("a", n), "unparsable", "huge")
+	}
 	deep("ping-params", env(Int(2), "ping", vp(Deep('a', depth, Null()))), "ping")
 	deep("unknown-method-params", env(Int(2), "verif/nope", vp(Deep('o', depth, Obj()))), "")
 	deep("big-method", env(Int(2), strings.Repeat("m", 4096), nil), "")
@@ -737,5 +747,31 @@ func FuzzCases(reg *Registry, rng *rand.Rand, n int) []Case {
 		seen[raw] = true
 		cs = append(cs, caseOf(reg, fmt.Sprintf("fuzz:%d", len(cs)), v, "fuzz"))
 	}
+	return cs
+}
+
+// LifecycleCases: an ORDERED sequence of repeated life-cycle messages for the session the run uses: the initialized
+// notification before any initialize, initialize, the notification, the notification again, initialize twice more, …
+func LifecycleCases(reg *Registry) []Case {
+	notif := Obj(F("jsonrpc", Str("2.0")), F("method", Str("notifications/initialized")))
+	var cs []Case
+	k := 0
+	add := func(what string, v V) {
+		k++
+		cs = append(cs, caseOf(reg, fmt.Sprintf("lifecycle:%02d:%s", k, what), v, "lifecycle"))
+	}
+	ini := func() V { return env(Str(fmt.Sprintf("lc-%d", k)), "initialize", initParams("2025-03-26")) }
+	add("initialized-before-initialize", notif)
+	add("initialize", ini())
+	add("initialized", notif)
+	add("initialized-again", notif)
+	add("initialize-again", ini())
+	add("initialize-a-third-time", ini())
+	add("initialized", notif)
+	add("initialized-again", notif)
+	add("tools/list", env(Str("lc-list"), "tools/list", nil))
+	add("initialized-a-third-time", notif)
+	add("initialize-after-that", ini())
+	add("ping", env(Str("lc-ping"), "ping", nil))
 	return cs
 }
